@@ -17,7 +17,7 @@ for sid in sorted(os.listdir(os.path.join(d, "seeded"))):
             if v.get("caught"):
                 out.append("%s: **caught**%s" % (p, " (no-failing-input-found: proof / correspondence broke, oracle found no input)" if "no-failing-input-found" in v.get("line", "") else ", VIOLATION with replay"))
             else:
-                out.append("%s: MISSED" % p)
+                out.append("%s: %s" % (p, ("not caught - " + m["retired"]) if m.get("retired") else "MISSED"))
         else:
             out.append("%s: %s" % (p, v))
     if r.get("error"):
